@@ -1316,7 +1316,9 @@ def guards():
             for sub in items:
                 visit(sub, stack)
         visit(tree, [])
-    rows = sorted(rows)          # a multiset: dropping one of two identical tests changes the table
+    # a set, not a multiset: a multiset (tried in round 6) also sees one of two identical tests being dropped, but two behaviour-preserving
+    # refactors that merge duplicated branches (harmless/C07_h2, C08_h2) then alarm; the dropped-duplicate case is left to the oracles
+    rows = sorted(set(rows))
     return guards_lean(rows, "Gen", "GENERATED by tools/pyexpr.py from /repo/src/hmf — do not edit.", ctor_rows), rows
 
 
